@@ -2,7 +2,7 @@ import RaftProofs.ClusterCommit2A
 
 /-!
 Cluster-level commit safety, part 2B: one delivery of a `MsgAppend` at a node, completely
-(`append_call`), and the basic facts about the nodes of a history under `Hyp2`.
+(`append_call`), and the basic facts about the nodes of a history under `Hyp2w`.
 -/
 namespace RaftModel
 namespace Raft
